@@ -1,3 +1,386 @@
+import Bch.Proofs.Address
+/-
+C02 — "Address decoding is strict, canonical and network-separating."
+
+Theorems about the executable model `Bch.Model.Address.DecodeAddress` (the exact cascade of the Go
+function: length pre-check, prefix detection by `EqualFold`, cash attempt, SLP retry, 66/130-character
+hex path, Base58Check path) and `Bch.Model.CashAddr.checkDecodeCashAddress`.
+External code is the parameter pack `X : Ext`; every hypothesis on it is explicit and only the
+public-key statements need one (`SerLaw`: serialising what was parsed, in the format its first byte
+announces, gives the bytes back — true for bchec's three formats).
+Proofs: `Bch/Proofs/Address.lean` (+ `CashAddr*.lean`, `Base58.lean`, `Hex.lean`).
+-/
 namespace Bch.Props.C02
-theorem placeholder : True := trivial
+open Bch Bch.Model Bch.Model.CashAddr Bch.Model.Address
+open Bch.Proofs.CashAddr Bch.Proofs.Address
+
+/-- `Serialize*(ParsePubKey(ser)) = ser` in the format announced by the first byte
+(02/03 ↦ compressed, 04 ↦ uncompressed, 06/07 ↦ hybrid) -/
+def SerLaw (X : Ext) : Prop :=
+  ∀ ser pt f, X.parsePub ser = some pt → fmtOfHead (ser.headD 0) = some f → X.serPub f pt = ser
+
+/-! ### canonical form -/
+
+/-- **C02_canonical** (full). If `DecodeAddress` accepts `s` on one of the six networks, then
+* CashAddr kinds: the address carries the network's cash or SLP prefix (never an empty one), and the
+  case-folded input is exactly its `EncodeAddress`, or that preceded by the address's own `prefix:`;
+* legacy kinds: the input is exactly `EncodeAddress` (no normalisation at all);
+* public keys: the input is, up to ASCII case, the hex string of a 33/65-byte serialisation that parses
+  to the returned point and whose first byte announces the returned format.
+No hypothesis on `X`. -/
+theorem C02_canonical (X : Ext) : ∀ net ∈ nets, ∀ (s : Bytes) (a : Addr),
+    DecodeAddress X s net = .ok a →
+    match a with
+    | .pkh _ pre | .sh _ pre | .sh32 _ pre =>
+      (pre = net.cashPrefix ∨ pre = net.slpPrefix) ∧ pre ≠ [] ∧
+      (lowerASCII s = EncodeAddress X a ∨ lowerASCII s = pre ++ 58 :: EncodeAddress X a)
+    | .legacyPkh _ _ | .legacySh _ _ => s = EncodeAddress X a
+    | .pubKey f pt _ => ∃ ser, X.parsePub ser = some pt ∧ fmtOfHead (ser.headD 0) = some f ∧
+        (ser.length = 33 ∨ ser.length = 65) ∧ lowerASCII s = hexEnc ser :=
+  fun net hnet s a h => canonical X net (nets_wf hnet) s a h
+
+/-- Public keys under `SerLaw`: the case-folded input is the address's `String`. -/
+theorem C02_canonical_pubkey (X : Ext) (hser : SerLaw X) : ∀ net ∈ nets, ∀ (s : Bytes) f pt id,
+    DecodeAddress X s net = .ok (.pubKey f pt id) →
+    lowerASCII s = Address.String X (.pubKey f pt id) ∧ id = net.pkhID := by
+  intro net hnet s f pt id h
+  obtain ⟨ser, hp, hf, _, hl⟩ := canonical X net (nets_wf hnet) s _ h
+  refine ⟨?_, ?_⟩
+  · simp only [Address.String, serialize]
+    rw [hser ser pt f hp hf, hl]
+  · rcases decode_ok_cases X net (nets_wf hnet) s _ h with ⟨t, d, ver, pre, ha, _⟩ | ⟨flag, ht⟩
+    · unfold mkCash at ha; split at ha <;> cases ha
+    · rcases tail_ok_inv X s net flag _ ht with ⟨_, ser', _, hn⟩ | ⟨_, d, id', _, _, hk⟩
+      · obtain ⟨_, _, _, _, he⟩ := newPubKey_ok_inv X ser' net _ hn
+        cases he; rfl
+      · rcases hk with ⟨_, _, he⟩ | ⟨_, _, he⟩ <;> cases he
+
+/-- the normalisation the harness applies (`strip`: drop one leading `pre:` for a non-empty `pre`) -/
+def strip (pre x : Bytes) : Bytes :=
+  if !pre.isEmpty && (pre ++ [58]).isPrefixOf x then x.drop (pre.length + 1) else x
+
+/-- **C02_canonical**, in the form of the harness predicate: for an accepted CashAddr-kind address the
+re-encoding equals the lower-cased input with one optional leading `cashPrefix:` or `slpPrefix:`
+removed. -/
+theorem C02_canonical_strip (X : Ext) : ∀ net ∈ nets, ∀ (s : Bytes) (a : Addr),
+    DecodeAddress X s net = .ok a →
+    (∃ h pre, a = .pkh h pre ∨ a = .sh h pre ∨ a = .sh32 h pre) →
+    EncodeAddress X a = strip net.cashPrefix (lowerASCII s) ∨
+    EncodeAddress X a = strip net.slpPrefix (lowerASCII s) := by
+  intro net hnet s a h hk
+  have hwf := nets_wf hnet
+  rcases decode_ok_cases X net hwf s a h with ⟨t, d, ver, pre, ha, hpre, hne, hv, hlow⟩ | ⟨flag, ht⟩
+  · have hnc := lowdig_no_colon (encoded_facts X t ver d pre hv).1
+    rw [← ha] at hnc
+    have hstrip_none : ∀ q : Bytes, strip q (EncodeAddress X a) = EncodeAddress X a := by
+      intro q
+      unfold strip
+      split
+      · rename_i hq
+        simp only [Bool.and_eq_true] at hq
+        have hpf := List.isPrefixOf_iff_prefix.mp hq.2
+        exact absurd (hpf.subset (by simp)) hnc
+      · rfl
+    have hstrip_pre : strip pre (pre ++ 58 :: EncodeAddress X a) = EncodeAddress X a := by
+      unfold strip
+      have h1 : (!pre.isEmpty) = true := by cases pre with | nil => exact absurd rfl hne | cons _ _ => rfl
+      have h2 : (pre ++ [58]).isPrefixOf (pre ++ 58 :: EncodeAddress X a) = true := by
+        rw [List.isPrefixOf_iff_prefix]
+        exact ⟨EncodeAddress X a, by simp⟩
+      rw [h1, h2]
+      simp only [Bool.and_self, if_true]
+      rw [show pre ++ 58 :: EncodeAddress X a = (pre ++ [58]) ++ EncodeAddress X a by simp]
+      exact List.drop_left' (by simp)
+    rcases hlow with hl | hl
+    · left; rw [hl, hstrip_none]
+    · rcases hpre with rfl | rfl
+      · left; rw [hl, hstrip_pre]
+      · right; rw [hl, hstrip_pre]
+  · exfalso
+    obtain ⟨hh, pre, hk⟩ := hk
+    rcases tail_ok_inv X s net flag a ht with ⟨_, ser, _, hn⟩ | ⟨_, d, id, _, _, hl⟩
+    · obtain ⟨_, _, _, _, he⟩ := newPubKey_ok_inv X ser net a hn
+      rcases hk with rfl | rfl | rfl <;> cases he
+    · rcases hl with ⟨_, _, he⟩ | ⟨_, _, he⟩ <;> rcases hk with rfl | rfl | rfl <;> cases he
+
+/-- the documented normalisation per family (`afterColon x`: what follows the first colon of `x`, or
+`x` itself when there is none) and the canonical string of an address -/
+example (h pre s : Bytes) : normalForm (.pkh h pre) s = afterColon (lowerASCII s) := rfl
+example (h : Bytes) (id : UInt8) (s : Bytes) : normalForm (.legacySh h id) s = s := rfl
+example (f : Nat) (pt : Bytes) (id : UInt8) (s : Bytes) : normalForm (.pubKey f pt id) s = lowerASCII s := rfl
+example (X : Ext) (h pre : Bytes) : canonicalString X (.sh h pre) = EncodeAddress X (.sh h pre) := rfl
+example (X : Ext) (f : Nat) (pt : Bytes) (id : UInt8) :
+    canonicalString X (.pubKey f pt id) = Address.String X (.pubKey f pt id) := rfl
+example : afterColon [98, 58, 113, 58] = [113, 58] ∧ afterColon [113, 112] = [113, 112] := by decide
+
+/-- **C02_normal_form**: accepted ⇒ the normal form of the input is the canonical string of the
+result. The law on `X` is only consulted when the result is a public key. -/
+theorem C02_normal_form (X : Ext) : ∀ net ∈ nets, ∀ (s : Bytes) (a : Addr),
+    (∀ f pt id, a = .pubKey f pt id → ∀ ser, X.parsePub ser = some pt →
+      fmtOfHead (ser.headD 0) = some f → X.serPub f pt = ser) →
+    DecodeAddress X s net = .ok a → normalForm a s = canonicalString X a :=
+  fun net hnet s a hser h => normalForm_eq X net (nets_wf hnet) s a hser h
+
+/-- **C02_injective**: two accepted strings with different normal forms decode to different
+addresses (stated contrapositively: the same result forces equal normal forms) — even across two
+networks. -/
+theorem C02_injective (X : Ext) (hser : SerLaw X) : ∀ net₁ ∈ nets, ∀ net₂ ∈ nets,
+    ∀ (s₁ s₂ : Bytes) (a : Addr),
+    DecodeAddress X s₁ net₁ = .ok a → DecodeAddress X s₂ net₂ = .ok a →
+    normalForm a s₁ = normalForm a s₂ := by
+  intro n1 h1 n2 h2 s1 s2 a hd1 hd2
+  have hs : ∀ f pt id, a = .pubKey f pt id → ∀ ser, X.parsePub ser = some pt →
+      fmtOfHead (ser.headD 0) = some f → X.serPub f pt = ser :=
+    fun f pt _ _ ser hp hf => hser ser pt f hp hf
+  rw [normalForm_eq X n1 (nets_wf h1) s1 a hs hd1, normalForm_eq X n2 (nets_wf h2) s2 a hs hd2]
+
+/-! ### rejections -/
+
+/-- A CashAddr-kind result can only come from a successful `checkDecodeCashAddress` on one of the
+attempt strings (`attemptStr s net b`: `s` itself when it carries one of the two prefixes, else
+`cashPrefix:lower(s)` for `b = false` / `slpPrefix:lower(s)` for `b = true`), dispatched by `fromCash`.
+So every rejection of `checkDecodeCashAddress` below is a rejection of `DecodeAddress` as a CashAddr
+address. -/
+theorem C02_cash_accept_only_via_checkDecode (X : Ext) (s : Bytes) (net : Net) (a : Addr)
+    (hk : ∃ h pre, a = .pkh h pre ∨ a = .sh h pre ∨ a = .sh32 h pre)
+    (hd : DecodeAddress X s net = .ok a) :
+    ∃ b p d t, checkDecodeCashAddress (attemptStr s net b) = (p, .ok (d, t)) ∧
+      fromCash net b d t = .ok a := by
+  obtain ⟨h, pre, hk⟩ := hk
+  rcases hk with rfl | rfl | rfl
+  · exact cash_accept_via_attempt X s net 0 h pre hd
+  · exact cash_accept_via_attempt X s net 1 h pre hd
+  · exact cash_accept_via_attempt X s net 2 h pre hd
+
+example (s : Bytes) (net : Net) (b : Bool) : attemptStr s net b =
+    if hasPrefixFold s net.cashPrefix || hasPrefixFold s net.slpPrefix then s
+    else (if b then net.slpPrefix else net.cashPrefix) ++ [58] ++ lowerASCII s := rfl
+
+/-- A string containing a colon is accepted only if `checkDecodeCashAddress` accepts the string
+itself (the hex and Base58 stages never accept a colon), with one of the network's two prefixes. -/
+theorem C02_qualified_accept (X : Ext) : ∀ net ∈ nets, ∀ (s : Bytes) (a : Addr), 58 ∈ s →
+    DecodeAddress X s net = .ok a →
+    ∃ p d t, checkDecodeCashAddress s = (p, .ok (d, t)) ∧ (p = net.cashPrefix ∨ p = net.slpPrefix) ∧
+      ∃ pre, a = mkCash t d pre :=
+  fun net hnet s a h58 h => qualified_accept X net (nets_wf hnet) s a h58 h
+
+/-- what `checkDecodeCashAddress` does once the character/checksum stage has succeeded -/
+example (w pre pl : Bytes) (h : DecodeCashAddress w = .ok (pre, pl)) :
+    checkDecodeCashAddress w = (pre, payloadResult pl) := cdc_of_decode w pre pl h
+
+/-- **C02_reject_unknown_version**: a string with a VALID checksum whose payload unpacks to 21 bytes with
+a version byte other than 0x00/0x08, or to 33 bytes with a version byte other than 0x0b, is rejected
+with `unknownType` (the unfixed Go code accepted the former as P2PKH). -/
+theorem C02_reject_unknown_version (w pre pl data : Bytes)
+    (hd : DecodeCashAddress w = .ok (pre, pl)) (hc : convertBits pl 5 8 false = some data)
+    (hv : (data.length = 21 ∧ data.headD 0 ≠ 0x00 ∧ data.headD 0 ≠ 0x08) ∨
+      (data.length = 33 ∧ data.headD 0 ≠ 0x0b)) :
+    checkDecodeCashAddress w = (pre, .error .unknownType) := by
+  rw [cdc_of_decode w pre pl hd, payload_unknown_version pl data hc hv]
+
+/-- **C02_reject_length**: a valid checksum over a payload of any byte length other than 21 / 33. -/
+theorem C02_reject_length (w pre pl data : Bytes)
+    (hd : DecodeCashAddress w = .ok (pre, pl)) (hc : convertBits pl 5 8 false = some data)
+    (hl : data.length ≠ 21 ∧ data.length ≠ 33) :
+    checkDecodeCashAddress w = (pre, .error .length) := by
+  rw [cdc_of_decode w pre pl hd, payload_bad_length pl data hc hl]
+
+/-- **C02_reject_padding**: a valid checksum over a payload with five or more padding bits or a non-zero
+padding bit (`beVal 5` = the number spelled by the 5-bit symbols). -/
+theorem C02_reject_padding (w pre pl : Bytes) (hd : DecodeCashAddress w = .ok (pre, pl))
+    (hp : 5 ≤ 5 * pl.length % 8 ∨ beVal 5 (pl.map UInt8.toNat) % 2 ^ (5 * pl.length % 8) ≠ 0) :
+    checkDecodeCashAddress w = (pre, .error .padding) := by
+  obtain ⟨_, _, _, _, _, _, _, hpl, _⟩ := decode_canonical w pre pl hd
+  rw [cdc_of_decode w pre pl hd, payload_padding pl ((convertBits_rejects_padding pl hpl).mpr hp)]
+
+/-- The accepted payloads are exactly the three (type, version byte, hash length) combinations. -/
+theorem C02_accept_payload_iff (pl d : Bytes) (t : Nat) :
+    payloadResult pl = .ok (d, t) ↔ ∃ ver, convertBits pl 5 8 false = some (ver :: d) ∧
+      ((t = 0 ∧ ver = 0x00 ∧ d.length = 20) ∨ (t = 1 ∧ ver = 0x08 ∧ d.length = 20) ∨
+       (t = 2 ∧ ver = 0x0b ∧ d.length = 32)) :=
+  payloadResult_ok_iff pl d t
+
+/-- **C02_reject_checksum**: `P:B` (first colon after `P`) whose body maps to symbols `values` that do
+not verify under the case-folded prefix is never decoded … -/
+theorem C02_reject_checksum (P B values : Bytes) (hP : 58 ∉ P)
+    (hmap : B.mapM charsetRev = some values)
+    (hver : verifyChecksum (lowerASCII P) values = false) :
+    ∀ r, DecodeCashAddress (P ++ 58 :: B) ≠ .ok r :=
+  decode_reject_checksum P B values hP hmap hver
+
+/-- … and when it is otherwise well-formed the error is precisely `checksumMismatch` (the class that
+triggers the SLP retry). -/
+theorem C02_reject_checksum_class (P B values : Bytes) (hne : P ≠ [])
+    (hP : ∀ c ∈ P, isLetter c = true) (hB : ∀ c ∈ B, isAlnum c = true)
+    (hcase : ¬ ((P ++ B).any isUp = true ∧ (P ++ B).any isLow = true))
+    (hmap : B.mapM charsetRev = some values)
+    (hver : verifyChecksum (P.map (· ||| 0x20)) values = false) :
+    DecodeCashAddress (P ++ 58 :: B) = .error .checksumMismatch :=
+  decode_mismatch P B values hne hP hB hcase hmap hver
+
+/-- A checksum is accepted only if it is THE checksum: the last eight symbols of an accepted body are
+`createChecksum prefix payload`. -/
+theorem C02_accepted_checksum (str pre pl : Bytes) (h : DecodeCashAddress str = .ok (pre, pl)) :
+    ∃ enc, encode pre pl = some enc ∧ lowerASCII str = pre ++ 58 :: enc :=
+  let ⟨enc, h1, h2, _⟩ := decode_canonical str pre pl h
+  ⟨enc, h1, h2⟩
+
+/-- **C02_reject_foreign_prefix**: a string `P:B` whose case-folded prefix part `P` is neither the cash
+nor the SLP prefix of the network asked for (another network's prefix, an unregistered one, …) is never
+accepted — whatever follows the colon. -/
+theorem C02_reject_foreign_prefix (X : Ext) : ∀ net ∈ nets, ∀ (P B : Bytes), 58 ∉ P →
+    lowerASCII P ≠ net.cashPrefix → lowerASCII P ≠ net.slpPrefix →
+    ∀ a, DecodeAddress X (P ++ 58 :: B) net ≠ .ok a := by
+  intro net hnet P B hP hc hs a h
+  obtain ⟨p, d, t, hcd, hp, _⟩ := qualified_accept X net (nets_wf hnet) _ a (by simp) h
+  obtain ⟨_, _, hlow, _, hplow⟩ := cdc_ok_inv X _ p d t hcd
+  rw [lower_append] at hlow
+  have h1 : lowerASCII (58 :: B) = 58 :: lowerASCII B := rfl
+  rw [h1] at hlow
+  have := (split_colon (fun hm => hP (mem_lower_58.mp hm)) (low_no_colon hplow) hlow).1
+  rcases hp with rfl | rfl
+  · exact hc this
+  · exact hs this
+
+/-- non-vacuity: the regtest prefix on mainnet -/
+example : (58 : UInt8) ∉ regTest.cashPrefix ∧ lowerASCII regTest.cashPrefix ≠ mainNet.cashPrefix ∧
+    lowerASCII regTest.cashPrefix ≠ mainNet.slpPrefix ∧ mainNet ∈ nets := by decide +kernel
+
+/-! ### network separation -/
+
+/-- **C02_net_cash**: an accepted CashAddr-kind address carries the cash or the SLP prefix of the network
+asked for; if it is the cash prefix (the non-SLP case) it belongs to that network, and to another
+network exactly when that one has the same cash prefix; if it is the SLP prefix it belongs to none
+of the asked network's … (`IsForNet` compares with the cash prefix). -/
+theorem C02_net_cash (X : Ext) : ∀ net ∈ nets, ∀ (s : Bytes) (a : Addr) (h pre : Bytes),
+    (a = .pkh h pre ∨ a = .sh h pre ∨ a = .sh32 h pre) → DecodeAddress X s net = .ok a →
+    (pre = net.cashPrefix ∨ pre = net.slpPrefix) ∧
+    (pre = net.cashPrefix → IsForNet a net = true ∧
+      ∀ net', IsForNet a net' = true ↔ net'.cashPrefix = net.cashPrefix) ∧
+    (pre = net.slpPrefix → IsForNet a net = false) := by
+  intro net hnet s a h pre hk hd
+  have hwf := nets_wf hnet
+  have hc := canonical X net hwf s a hd
+  have hisfor : ∀ net', IsForNet a net' = decide (pre = net'.cashPrefix) := by
+    intro net'; rcases hk with rfl | rfl | rfl <;> rfl
+  have hpre : pre = net.cashPrefix ∨ pre = net.slpPrefix := by
+    rcases hk with rfl | rfl | rfl <;> exact hc.1
+  refine ⟨hpre, ?_, ?_⟩
+  · intro he
+    refine ⟨by rw [hisfor, he]; simp, fun net' => ?_⟩
+    rw [hisfor, he]; simp [eq_comm]
+  · intro he
+    rw [hisfor, he]
+    simp only [decide_eq_false_iff_not]
+    exact fun e => hwf.cash_ne_slp e.symm
+
+/-- the networks really are separated by their cash prefixes, except the three test networks that
+share `bchtest` -/
+example : ∀ n ∈ nets, ∀ m ∈ nets, n.cashPrefix = m.cashPrefix →
+    (n = m ∨ (n ∈ [testNet3, testNet4, chipNet] ∧ m ∈ [testNet3, testNet4, chipNet])) := by
+  decide +kernel
+
+/-- **C02_net_legacy**: an accepted legacy address carries a registered version byte of its kind only
+(P2PKH: 0x00/0x3f/0x6f, P2SH: 0x05/0x7b/0xc4), and it is for network `m` iff that byte is `m`'s id of
+that kind. -/
+theorem C02_net_legacy (X : Ext) : ∀ net ∈ nets, ∀ (s d : Bytes) (id : UInt8),
+    (DecodeAddress X s net = .ok (.legacyPkh d id) →
+      id ∈ pkhIDs ∧ id ∉ shIDs ∧ d.length = 20 ∧ ∀ m, IsForNet (.legacyPkh d id) m = true ↔ m.pkhID = id) ∧
+    (DecodeAddress X s net = .ok (.legacySh d id) →
+      id ∈ shIDs ∧ id ∉ pkhIDs ∧ d.length = 20 ∧ ∀ m, IsForNet (.legacySh d id) m = true ↔ m.shID = id) := by
+  intro net hnet s d id
+  have hwf := nets_wf hnet
+  constructor
+  · intro h
+    rcases decode_ok_cases X net hwf s _ h with ⟨t, d', ver, pre, ha, _⟩ | ⟨flag, ht⟩
+    · unfold mkCash at ha; split at ha <;> cases ha
+    · rcases tail_ok_inv X s net flag _ ht with ⟨_, ser, _, hn⟩ | ⟨_, d', id', _, h20, hk⟩
+      · obtain ⟨_, _, _, _, he⟩ := newPubKey_ok_inv X ser net _ hn
+        cases he
+      · rcases hk with ⟨h1, h2, he⟩ | ⟨_, _, he⟩
+        · cases he
+          exact ⟨h1, h2, h20, fun m => by simp [IsForNet, eq_comm]⟩
+        · cases he
+  · intro h
+    rcases decode_ok_cases X net hwf s _ h with ⟨t, d', ver, pre, ha, _⟩ | ⟨flag, ht⟩
+    · unfold mkCash at ha; split at ha <;> cases ha
+    · rcases tail_ok_inv X s net flag _ ht with ⟨_, ser, _, hn⟩ | ⟨_, d', id', _, h20, hk⟩
+      · obtain ⟨_, _, _, _, he⟩ := newPubKey_ok_inv X ser net _ hn
+        cases he
+      · rcases hk with ⟨_, _, he⟩ | ⟨h1, h2, he⟩
+        · cases he
+        · cases he
+          exact ⟨h1, h2, h20, fun m => by simp [IsForNet, eq_comm]⟩
+
+/-- Note that the decoder does not compare the version byte with the network asked for: on every network
+it accepts the legacy addresses of all registered networks (as the Go code does). What it does on a
+Base58Check string of a 20-byte payload, for every version byte: -/
+theorem C02_legacy_any_version (X : Ext) (hsha : ∀ x, 4 ≤ (X.sha256d x).length) :
+    ∀ net ∈ nets, ∀ (h : Bytes) (id : UInt8), h.length = 20 →
+    DecodeAddress X (Base58.CheckEncode X.sha256d h id) net =
+      if pkhIDs.contains id then .ok (.legacyPkh h id)
+      else if shIDs.contains id then .ok (.legacySh h id)
+      else .error .unknownAddressType :=
+  fun net hnet h id hl => legacy_decode X net (nets_wf hnet) h hl id hsha
+
+/-- `ErrAddressCollision` would need a version byte registered both as P2PKH and P2SH id; with the
+registered tables there is none, so the error is unreachable — for every input and every `Net` value. -/
+theorem C02_no_collision (X : Ext) (s : Bytes) (net : Net) :
+    (∀ id : UInt8, ¬ (pkhIDs.contains id = true ∧ shIDs.contains id = true)) ∧
+    DecodeAddress X s net ≠ .error .addressCollision :=
+  ⟨ids_disjoint, no_collision X s net⟩
+
+/-! ### non-vacuity (tests) -/
+
+/-- a toy parameter pack (same as in C01) satisfying `SerLaw` -/
+def Xtoy : Ext where
+  sha256d := fun _ => List.replicate 32 7
+  hash160 := fun _ => List.replicate 20 1
+  hash256 := fun _ => List.replicate 32 2
+  parsePub := fun ser => if ser.headD 0 = 2 ∧ ser.length = 33 then some (ser.drop 1) else none
+  serPub := fun _ pt => 2 :: pt
+
+example : SerLaw Xtoy := by
+  intro ser pt f hp _
+  simp only [Xtoy] at hp ⊢
+  split at hp
+  · rename_i hc
+    cases ser with
+    | nil => simp at hc
+    | cons x xs =>
+      simp only [List.headD_cons] at hc
+      simp only [List.drop_succ_cons, List.drop_zero, Option.some.injEq] at hp
+      rw [← hp, hc.1]
+  · cases hp
+
+/-- accepted inputs of each family exist (hypotheses of the theorems above are satisfiable) -/
+example : DecodeAddress Xtoy (Bytes.ofString "BITCOINCASH:QQQQQQQQQQQQQQQQQQQQQQQQQQQQQQQQQQFNHKS603") mainNet
+    = .ok (.pkh (List.replicate 20 0) mainNet.cashPrefix) := by decide +kernel
+example : DecodeAddress Xtoy (EncodeAddress Xtoy (.legacySh (List.replicate 20 3) 5)) simNet
+    = .ok (.legacySh (List.replicate 20 3) 5) := by decide +kernel   -- mainnet P2SH id accepted on simnet
+example : DecodeAddress Xtoy (hexEnc (2 :: List.replicate 32 9)) testNet3
+    = .ok (.pubKey 1 (List.replicate 32 9) testNet3.pkhID) := by decide +kernel
+
+/-- an unknown version byte (0x10: "type 2, size 0") under a valid checksum is rejected; the unfixed code
+returned a P2PKH address here -/
+example : (convertBits (0x10 :: List.replicate 20 0) 8 5 true).bind (encode mainNet.cashPrefix)
+      = some (Bytes.ofString "zqqqqqqqqqqqqqqqqqqqqqqqqqqqqqqqqqweyg7usz") ∧
+    checkDecodeCashAddress (Bytes.ofString "bitcoincash:zqqqqqqqqqqqqqqqqqqqqqqqqqqqqqqqqqweyg7usz")
+      = (mainNet.cashPrefix, .error .unknownType) ∧
+    DecodeAddress Xtoy (Bytes.ofString "bitcoincash:zqqqqqqqqqqqqqqqqqqqqqqqqqqqqqqqqqweyg7usz") mainNet
+      = .error .unknownFormat := by decide +kernel
+
+/-- a 20-byte payload (version byte + 19 hash bytes) under a valid checksum: `length` error -/
+example : ((convertBits (0 :: List.replicate 19 0) 8 5 true).bind (encode mainNet.cashPrefix)).map
+      (fun s => checkDecodeCashAddress (mainNet.cashPrefix ++ [58] ++ s))
+    = some (mainNet.cashPrefix, .error .length) := by decide +kernel
+/-- 34 symbols whose last symbol sets a padding bit, under a valid checksum: `padding` error -/
+example : (encode mainNet.cashPrefix (List.replicate 33 0 ++ [1])).map
+      (fun s => checkDecodeCashAddress (mainNet.cashPrefix ++ [58] ++ s))
+    = some (mainNet.cashPrefix, .error .padding) := by decide +kernel
+/-- a valid SLP string is a checksum mismatch under the cash prefix -/
+example : (checkDecodeCashAddress (mainNet.cashPrefix ++ [58] ++
+      EncodeAddress Xtoy (.pkh (List.replicate 20 0) mainNet.slpPrefix))).2
+    = .error (.decode .checksumMismatch) := by decide +kernel
+
 end Bch.Props.C02
